@@ -55,7 +55,7 @@ class Profile:
     p_edge: int = 35
     windows: tuple = ((None, 6), (0, 1), (1, 2), (2, 2), (3, 1), (4, 1))
     timeouts: tuple = ((None, 10), (0, 1), (0.5, 1), (1, 1), (1.5, 1), (2, 1), (2.5, 1),
-                       (3, 1), (4, 1), (4.5, 1), (6, 1), (8, 1))
+                       (3, 1), (4, 1), (4.5, 1), (6, 1), (8, 1), (0.25, 1), (1.75, 1))
     sdts: tuple = ((None, 1), (0, 1), (1, 3), (2, 1), (3, 1))
     p_wild: int = 30                    # a scheduler under a timeout is wild
     p_sched_critical: int = 50
@@ -277,6 +277,7 @@ def scenarios(draw, prof=GENERAL):
     top['inspect'] = chance(draw, prof.p_inspect)
     top['prelude'] = chance(draw, prof.p_prelude)
     top['latefill'] = chance(draw, prof.p_latefill)
+    top['entry'] = draw(weighted((('run', 6), ('orchestrate', 1), ('co_run', 2))))
     if chance(draw, prof.p_rerun):
         top['rerun'] = True
         _force_abstract(top)        # a coroutine object cannot be awaited twice
